@@ -944,6 +944,10 @@ fn check_single(cx: &mut Ctx, variant: &str, text: &str, plain: &Outcome<Root>, 
 struct RenderedDoc {
     exp: Expect,
     visit: String,
+    /// the document's own text (without the `---` line) and the lines it occupies in the stream
+    text: String,
+    start_line: u32,
+    end_line: u32,
 }
 
 /// Render `docs` as one stream (documents separated by `---`), walk each for expectations.
@@ -956,15 +960,77 @@ fn render_stream(docs: &[(Y, Vec<usize>)], explicit_start: bool) -> (String, Vec
             text.push_str("---\n");
             line += 1;
         }
+        let start_line = line;
         let mut w = W::new(line);
         let p = w.document(y, comments);
         line = w.line;
         text.push_str(&w.out);
         let mut wk = Walker { anchors: &w.anchors, exp: Expect::default() };
         let visit = wk.typed(&ROOT, y, &p, None, &vec![], "");
-        out.push(RenderedDoc { exp: wk.exp, visit });
+        out.push(RenderedDoc { exp: wk.exp, visit, text: w.out.clone(), start_line, end_line: line.saturating_sub(1).max(start_line) });
     }
     (text, out)
+}
+
+/// canonical dump of the location map carried by a single-document validation error
+fn error_map_tok(e: &Error) -> Option<String> {
+    let dump = match errs::unwrap_snippet(e) {
+        Error::ValidationError { locations, .. } => h::dump(locations),
+        Error::ValidatorError { locations, .. } => h::dump(locations),
+        _ => return None,
+    };
+    let mut ents: Vec<String> = dump.iter().map(|(p, a, b)| {
+        format!("{} {} {}", super::out_path_tok(p), code((a.line() as u32, a.column() as u32)), code((b.line() as u32, b.column() as u32)))
+    }).collect();
+    ents.sort();
+    let mut s = format!("ok 0 {}", ents.len());
+    for e in ents { s.push(' '); s.push_str(&e); }
+    Some(s)
+}
+
+/// Document isolation: what a stream entry point reports for one document must be what the
+/// single-document entry point reports for that document's text alone, shifted by the document's line
+/// offset, and every location must lie inside the document's line range.
+fn check_isolation<T>(cx: &mut Ctx, variant: &str, stream: &str, e: &Error, krate: &str, doc_text: &str, start_line: u32, end_line: u32)
+where
+    T: serde::de::DeserializeOwned + garde::Validate + validator::Validate,
+    <T as garde::Validate>::Context: Default,
+{
+    let Some((_, mut got)) = issues_of(e) else { return };
+    got.sort(); // validator keeps its errors in a HashMap: the order of issues is not significant
+    cx.sink.count("oracle.isolation.checked");
+    let single = if krate == "garde" {
+        guard(|| serde_saphyr::from_str_valid::<T>(doc_text).map(|_| ()))
+    } else {
+        guard(|| serde_saphyr::from_str_validate::<T>(doc_text).map(|_| ()))
+    };
+    let Outcome::Err(se) = single else {
+        cx.fail("C18-multi-doc-isolation", &format!("{variant}: the stream reports a validation error for a document that passes on its own"), stream, err_tok(e), "Ok".into());
+        return;
+    };
+    let Some((_, alone)) = issues_of(&se) else {
+        cx.fail("C18-multi-doc-isolation", &format!("{variant}: the document alone does not fail with a validation error"), stream, err_tok(&se), "validation error".into());
+        return;
+    };
+    let shift = (start_line - 1) as u64;
+    let mut shifted: Vec<(RPath, Option<h::Found>)> = alone.into_iter().map(|(p, f)| {
+        (p, f.map(|(r, d, leaf)| ((r.0 + shift, r.1), (d.0 + shift, d.1), leaf)))
+    }).collect();
+    shifted.sort();
+    if shifted != got {
+        cx.fail("C18-multi-doc-isolation", &format!("{variant}: issues of the document at lines {start_line}..{end_line} differ from what the single-document entry point reports for that document alone (shifted by {shift} lines)"), stream,
+                format!("{:?}", got.iter().map(|(p, f)| (rpath_str(p), f.clone())).collect::<Vec<_>>()),
+                format!("{:?}", shifted.iter().map(|(p, f)| (rpath_str(p), f.clone())).collect::<Vec<_>>()));
+    }
+    for (p, f) in &got {
+        if let Some((r, d, _)) = f {
+            for (what, l) in [("reference", r.0), ("defined", d.0)] {
+                if l < start_line as u64 || l > end_line as u64 {
+                    cx.fail("C18-multi-doc-isolation", &format!("{variant}: `{}` is given a {what} location outside its document (lines {start_line}..{end_line})", rpath_str(p)), stream, format!("line {l}"), format!("{start_line}..{end_line}"));
+                }
+            }
+        }
+    }
 }
 
 fn dump_tok(r: &h::Recorded<Root>) -> String {
@@ -1130,6 +1196,9 @@ pub fn run(sink: &mut Sink, rng: &mut Rng, thorough: bool, out: &mut Vec<serde_j
     // ---------------- adversarial: fields renamed to an unrelated YAML key
     renamed_checks(&mut cx, rng, if thorough { 400 } else { 60 }, &mut documents, &mut nontrivial);
 
+    // ---------------- document isolation (valid documents before failing ones, alias vs renamed key)
+    iso_checks(&mut cx, rng, if thorough { 1_500 } else { 150 }, &mut documents, &mut nontrivial);
+
     // ---------------- streams
     let nstreams = if thorough { 4_000 } else { 300 };
     for si in 0..nstreams {
@@ -1263,6 +1332,190 @@ fn renamed_checks(cx: &mut Ctx, rng: &mut Rng, n: usize, documents: &mut u64, no
 }
 
 // ------------------------------------------------------------------------------------------------
+// document isolation family: one field with two accepted spellings, one `required` Option
+// ------------------------------------------------------------------------------------------------
+
+#[derive(Debug, Clone, PartialEq, Deserialize, garde::Validate, validator::Validate)]
+#[serde(rename_all = "camelCase")]
+pub struct IsoDoc {
+    #[serde(alias = "display_name")]
+    #[garde(length(min = 2))]
+    #[validate(length(min = 2))]
+    pub display_name: String,
+    #[garde(required)]
+    #[validate(required)]
+    #[serde(default)]
+    pub token: Option<String>,
+    #[garde(range(max = 10))]
+    #[validate(range(max = 10))]
+    pub level: u32,
+}
+
+struct IsoExpect {
+    text: String,
+    start_line: u32,
+    end_line: u32,
+    /// Rust-name path -> expected use-site (None: the field is absent from the document)
+    want: BTreeMap<RPath, Option<Pos>>,
+}
+
+/// Streams in which valid documents precede failing ones, the failing document spells `display_name`
+/// differently from an earlier document (alias vs. renamed key) or omits `token` that an earlier
+/// document had.
+fn iso_checks(cx: &mut Ctx, rng: &mut Rng, n: usize, documents: &mut u64, nontrivial: &mut u64) {
+    for round in 0..n {
+        let k = 2 + rng.below(3);
+        let mut text = String::new();
+        let mut line = 1u32;
+        let mut docs: Vec<IsoExpect> = Vec::new();
+        for di in 0..k {
+            // the first rounds are the two shapes named in the property's stream clause
+            let (alias_spelling, name_bad, token_present, level_bad) = match (round, di) {
+                (0, 0) => (true, false, true, false),
+                (0, 1) => (false, true, true, false),
+                (1, 0) => (false, false, true, false),
+                (1, 1) => (false, false, false, false),
+                _ => {
+                    let last = di + 1 == k;
+                    let bad = last || rng.chance(1, 3);
+                    (rng.chance(1, 2), bad && rng.chance(1, 2), !(bad && rng.chance(1, 2)), bad && rng.chance(1, 3))
+                }
+            };
+            if di > 0 { text.push_str("---\n"); line += 1; }
+            let mut entries: Vec<(String, Y)> = Vec::new();
+            let key = if alias_spelling { "display_name" } else { "displayName" };
+            entries.push((key.into(), Y::Str { text: if name_bad { "x".into() } else { "fine".into() }, style: rng.below(3) as u8, anchor: None }));
+            if token_present { entries.push(("token".into(), Y::Str { text: "tk".into(), style: 0, anchor: None })); }
+            entries.push(("level".into(), Y::Num { v: if level_bad { 11 } else { 3 }, anchor: None }));
+            if rng.chance(1, 2) { entries.reverse(); }
+            let root = Y::Map { entries: entries.clone(), anchor: None, flow: false };
+            let start_line = line;
+            let mut w = W::new(line);
+            let p = w.document(&root, &[]);
+            line = w.line;
+            text.push_str(&w.out);
+            let mut want: BTreeMap<RPath, Option<Pos>> = BTreeMap::new();
+            for ((kname, _), kp) in entries.iter().zip(&p.kids) {
+                if (kname == "display_name" || kname == "displayName") && name_bad { want.insert(vec![kseg("display_name")], Some(kp.pos)); }
+                if kname == "level" && level_bad { want.insert(vec![kseg("level")], Some(kp.pos)); }
+            }
+            if !token_present { want.insert(vec![kseg("token")], None); }
+            docs.push(IsoExpect { text: w.out.clone(), start_line, end_line: line - 1, want });
+        }
+        *documents += k as u64;
+        if docs.iter().any(|d| !d.want.is_empty()) { *nontrivial += 1; }
+        let failing: Vec<usize> = (0..k).filter(|&i| !docs[i].want.is_empty()).collect();
+        cx.sink.count(&format!("oracle.iso.failing_docs.{}", failing.len().min(4)));
+        if failing.first().map(|&f| f > 0).unwrap_or(false) { cx.sink.count("oracle.iso.valid_doc_precedes_failing"); }
+        let bytes = text.as_bytes();
+        for krate in ["garde", "validator"] {
+            // batch variants
+            let batch: Vec<(&str, Outcome<Vec<IsoDoc>>)> = if krate == "garde" {
+                vec![
+                    ("from_multiple_valid<Iso>", guard(|| serde_saphyr::from_multiple_valid::<IsoDoc>(&text))),
+                    ("from_multiple_with_options_valid<Iso>", guard(|| serde_saphyr::from_multiple_with_options_valid::<IsoDoc>(&text, opts(round % 3)))),
+                    ("from_slice_multiple_with_options_valid<Iso>", guard(|| serde_saphyr::from_slice_multiple_with_options_valid::<IsoDoc>(bytes, opts(round % 3)))),
+                ]
+            } else {
+                vec![
+                    ("from_multiple_validate<Iso>", guard(|| serde_saphyr::from_multiple_validate::<IsoDoc>(&text))),
+                    ("from_multiple_with_options_validate<Iso>", guard(|| serde_saphyr::from_multiple_with_options_validate::<IsoDoc>(&text, opts(round % 3)))),
+                    ("from_slice_multiple_with_options_validate<Iso>", guard(|| serde_saphyr::from_slice_multiple_with_options_validate::<IsoDoc>(bytes, opts(round % 3)))),
+                ]
+            };
+            for (variant, got) in batch {
+                cx.calls += 1;
+                cx.sink.count(&format!("oracle.call.{variant}"));
+                match got {
+                    Outcome::Panic => cx.fail("C18-panic", &format!("{variant} panicked"), &text, "panic".into(), "no panic".into()),
+                    Outcome::Ok(vs) => {
+                        if !failing.is_empty() { cx.fail("C18-multi-missing-doc", &format!("{variant}: Ok although documents {failing:?} violate constraints"), &text, "Ok".into(), "validation errors".into()); }
+                        else if vs.len() != k { cx.fail("C18-valid-ne-plain", &format!("{variant}: number of values"), &text, vs.len().to_string(), k.to_string()); }
+                        else { cx.sink.count("oracle.iso.pass"); }
+                    }
+                    Outcome::Err(e) => {
+                        let inner: Option<&Vec<Error>> = match errs::unwrap_snippet(&e) {
+                            Error::ValidationErrors { errors } if krate == "garde" => Some(errors),
+                            Error::ValidatorErrors { errors } if krate == "validator" => Some(errors),
+                            _ => None,
+                        };
+                        let Some(errors) = inner else {
+                            cx.fail(if failing.is_empty() { "C18-valid-ne-plain" } else { "C18-not-validation-error" }, &format!("{variant}: unexpected error"), &text, err_tok(&e), "aggregate validation error".into());
+                            continue;
+                        };
+                        if errors.len() != failing.len() {
+                            cx.fail("C18-multi-missing-doc", &format!("{variant}: not every failing document is reported"), &text, errors.len().to_string(), failing.len().to_string());
+                            continue;
+                        }
+                        for (err, &di) in errors.iter().zip(&failing) {
+                            iso_check_doc(cx, variant, &text, err, &docs[di]);
+                            check_isolation::<IsoDoc>(cx, variant, &text, err, krate, &docs[di].text, docs[di].start_line, docs[di].end_line);
+                        }
+                    }
+                }
+            }
+            // iterator variants
+            for with_opts in [false, true] {
+                let variant = format!("{}{}<Iso>", if with_opts { "read_with_options_" } else { "read_" }, if krate == "garde" { "valid" } else { "validate" });
+                cx.calls += 1;
+                cx.sink.count(&format!("oracle.call.{variant}"));
+                let mut r = std::io::Cursor::new(bytes);
+                let res = catch_unwind(AssertUnwindSafe(|| -> Vec<Result<IsoDoc, Error>> {
+                    match (krate, with_opts) {
+                        ("garde", false) => serde_saphyr::read_valid::<_, IsoDoc>(&mut r).collect(),
+                        ("garde", true) => serde_saphyr::read_with_options_valid::<_, IsoDoc>(&mut r, opts(round % 3)).collect(),
+                        (_, false) => serde_saphyr::read_validate::<_, IsoDoc>(&mut r).collect(),
+                        (_, true) => serde_saphyr::read_with_options_validate::<_, IsoDoc>(&mut r, opts(round % 3)).collect(),
+                    }
+                }));
+                let Ok(items) = res else { cx.fail("C18-panic", &format!("{variant} panicked"), &text, "panic".into(), "no panic".into()); continue; };
+                if items.len() != k {
+                    cx.fail("C18-multi-missing-doc", &format!("{variant}: number of items"), &text, items.len().to_string(), k.to_string());
+                    continue;
+                }
+                for (i, it) in items.iter().enumerate() {
+                    match it {
+                        Ok(_) => if !docs[i].want.is_empty() { cx.fail("C18-multi-missing-doc", &format!("{variant}: document {i} fails validation but is yielded as Ok"), &text, "Ok".into(), "validation error".into()); },
+                        Err(e) => {
+                            if docs[i].want.is_empty() { cx.fail("C18-valid-ne-plain", &format!("{variant}: item {i} is an error although validation passes"), &text, err_tok(e), "Ok".into()); }
+                            else {
+                                iso_check_doc(cx, &variant, &text, e, &docs[i]);
+                                check_isolation::<IsoDoc>(cx, &variant, &text, e, krate, &docs[i].text, docs[i].start_line, docs[i].end_line);
+                            }
+                        }
+                    }
+                }
+            }
+        }
+    }
+}
+
+/// the issues of one failing document of the isolation family against its expected positions
+fn iso_check_doc(cx: &mut Ctx, variant: &str, text: &str, e: &Error, d: &IsoExpect) {
+    let Some((_, issues)) = issues_of(e) else {
+        cx.fail("C18-not-validation-error", &format!("{variant}: not a validation error"), text, err_tok(e), "validation error".into());
+        return;
+    };
+    cx.sink.count("oracle.iso.doc_checked");
+    let got: BTreeSet<RPath> = issues.iter().map(|(p, _)| p.clone()).collect();
+    let want: BTreeSet<RPath> = d.want.keys().cloned().collect();
+    if got != want {
+        cx.fail("C18-issue-set-mismatch", &format!("{variant}: reported paths differ from the violated constraints"), text, format!("{:?}", got.iter().map(rpath_str).collect::<Vec<_>>()), format!("{:?}", want.iter().map(rpath_str).collect::<Vec<_>>()));
+    }
+    for (path, found) in &issues {
+        let Some(w) = d.want.get(path) else { continue };
+        let got_pos = found.as_ref().map(|(r, _, _)| (r.0 as u32, r.1 as u32));
+        if got_pos == *w {
+            cx.sink.count(if w.is_some() { "oracle.iso.located" } else { "oracle.iso.absent_field_has_no_location" });
+            continue;
+        }
+        let outside = got_pos.map(|p| p.0 < d.start_line || p.0 > d.end_line).unwrap_or(false);
+        let id = if outside || w.is_none() { "C18-multi-doc-isolation" } else if got_pos.is_none() { "C18-path-unresolved" } else { "C18-path-wrong-use-site" };
+        cx.fail(id, &format!("{variant}: `{}` of the document at lines {}..{}", rpath_str(path), d.start_line, d.end_line), text, format!("{got_pos:?}"), format!("{w:?}"));
+    }
+}
+
+// ------------------------------------------------------------------------------------------------
 // streams
 // ------------------------------------------------------------------------------------------------
 
@@ -1347,6 +1600,14 @@ fn multi_checks(cx: &mut Ctx, text: &str, rd: &[RenderedDoc], ov: usize, bom: bo
                     if failing.len() >= 2 { cx.sink.count("oracle.stream.fail_checked_2plus"); }
                     for (err, &di) in errors.iter().zip(&failing) {
                         check_issues(cx, &variant, text, err, krate, &per_doc[di], &rd[di].exp);
+                        check_isolation::<Root>(cx, &variant, text, err, krate, &rd[di].text, rd[di].start_line, rd[di].end_line);
+                        // the map handed to document di's error vs. the model of document di's traversal alone
+                        if !with_opts && !bom {
+                            if let Some(tok) = error_map_tok(err) {
+                                cx.sink.case(&format!("pathmap rec {}", rd[di].visit), &tok);
+                                cx.sink.count("rec.stream_error_maps");
+                            }
+                        }
                     }
                 }
             }
@@ -1405,6 +1666,13 @@ fn multi_checks(cx: &mut Ctx, text: &str, rd: &[RenderedDoc], ov: usize, bom: bo
                                 } else if i < rd.len() && items.len() == rd.len() {
                                     cx.sink.count("oracle.iter.fail_checked");
                                     check_issues(cx, &variant, text, e, krate, &want, &rd[i].exp);
+                                    check_isolation::<Root>(cx, &variant, text, e, krate, &rd[i].text, rd[i].start_line, rd[i].end_line);
+                                    if !with_opts && !bom {
+                                        if let Some(tok) = error_map_tok(e) {
+                                            cx.sink.case(&format!("pathmap rec {}", rd[i].visit), &tok);
+                                            cx.sink.count("rec.iter_error_maps");
+                                        }
+                                    }
                                 }
                             }
                         }
